@@ -43,6 +43,16 @@ Proof.
   - reflexivity.
 Qed.
 
+Lemma split_semi_spec : forall s a b, split_semi s = Some (a, b) -> s = a ++ 59 :: b /\ no_semi a = true.
+Proof.
+  induction s as [|c s IH]; intros a b H; cbn [split_semi] in H; [discriminate|].
+  destruct (c =? 59) eqn:E.
+  - inversion H; subst. split; [simpl; f_equal; lia|reflexivity].
+  - destruct (split_semi s) as [[a' b']|] eqn:E2; [|discriminate]. inversion H; subst.
+    destruct (IH a' b eq_refl) as [-> Hn]. split; [reflexivity|].
+    cbn [no_semi forallb]. rewrite E. exact Hn.
+Qed.
+
 Lemma digits_cons : forall ds, digits ds -> exists d r, ds = d :: r.
 Proof. intros ds [H _]. destruct ds as [|d r]; [congruence|eauto]. Qed.
 
@@ -64,7 +74,7 @@ Lemma parse_str_gen : forall f ds s rest, digits ds -> val_digits ds = N.of_nat 
 Proof.
   intros f ds s rest Hd Hv Hm. rewrite parse_value_S. cbn [app].
   change (115 =? 78) with false. change (115 =? 98) with false. change (115 =? 105) with false.
-  change (115 =? 115) with true. cbv iota.
+  change (115 =? 100) with false. change (115 =? 115) with true. cbv iota.
   rewrite expect_hit.
   rewrite span_digits_app; [|apply Hd|reflexivity].
   destruct (digits_cons ds Hd) as (d & r & E). subst ds.
@@ -85,7 +95,7 @@ Lemma parse_arr_gen : forall f ds body rest kvs, digits ds -> val_digits ds <= m
 Proof.
   intros f ds body rest kvs Hd Hn Hb Hp. rewrite parse_value_S. cbn [app].
   change (97 =? 78) with false. change (97 =? 98) with false. change (97 =? 105) with false.
-  change (97 =? 115) with false. change (97 =? 97) with true. cbv iota.
+  change (97 =? 100) with false. change (97 =? 115) with false. change (97 =? 97) with true. cbv iota.
   rewrite expect_hit.
   rewrite span_digits_app; [|apply Hd|reflexivity].
   destruct (digits_cons ds Hd) as (d & r & E). subst ds.
@@ -139,6 +149,13 @@ Proof.
       exists ([105; 58] ++ sg ++ (d :: ds) ++ [59]).
       split; [repeat rewrite <- app_assoc; simpl; f_equal; lia|].
       eapply st_int; eauto. split; [discriminate|exact Hd]. }
+    destruct (c =? 100) eqn:C3d.
+    { destruct (expect 58 s') as [r1|] eqn:E1; [|discriminate].
+      destruct (split_semi r1) as [[txt r2]|] eqn:E2; [|discriminate].
+      destruct (float_text_ok txt) eqn:EF; [|discriminate]. inversion H; subst.
+      apply expect_spec in E1. apply split_semi_spec in E2. destruct E2 as [-> Hn]. subst.
+      exists ([100; 58] ++ txt ++ [59]).
+      split; [repeat rewrite <- app_assoc; simpl; f_equal; lia|]. apply st_float; assumption. }
     destruct (c =? 115) eqn:C4.
     { destruct (expect 58 s') as [r1|] eqn:E1; [|discriminate].
       destruct (span_digits r1) as [ds r2] eqn:E3.
@@ -205,6 +222,7 @@ Proof.
     + reflexivity.
     + reflexivity.
     + repeat rewrite <- app_assoc. eapply parse_int_gen; eauto.
+    + repeat rewrite <- app_assoc. apply parse_float; assumption.
     + repeat rewrite <- app_assoc. apply parse_str_gen; assumption.
     + repeat rewrite <- app_assoc.
       match goal with Hp : pairs_text body kvs |- _ => pose proof (SZ2 _ _ Hp) as Hsz end.
@@ -243,33 +261,32 @@ Proof.
 Qed.
 
 Lemma ser_text_prefix : forall t v, ser_text t v ->
-  (has_prefix [78; 59] t || has_prefix [98; 58] t || has_prefix [105; 58] t
+  (has_prefix [78; 59] t || has_prefix [98; 58] t || has_prefix [105; 58] t || has_prefix [100; 58] t
    || has_prefix [115; 58] t || has_prefix [97; 58] t) = true /\ t <> [].
 Proof.
   intros t v H. inversion H; subst; split; try discriminate; try reflexivity.
 Qed.
 
-(* the function as a whole: it accepts exactly the grammar's texts, after trimming white space *)
-Lemma unserialize_accepts_iff_l : forall s v, unserialize s = POk v <-> ser_text (trim_space s) v.
+(* the function as a whole accepts exactly the grammar's texts *)
+Lemma unserialize_accepts_iff_l : forall s v, unserialize s = POk v <-> ser_text s v.
 Proof.
   intros s v. unfold unserialize. split.
-  - intros H. destruct (trim_space s) as [|c r] eqn:E; [discriminate|]. rewrite <- E in *.
-    destruct (has_prefix [78; 59] (trim_space s) || has_prefix [98; 58] (trim_space s)
-              || has_prefix [105; 58] (trim_space s) || has_prefix [115; 58] (trim_space s)
-              || has_prefix [97; 58] (trim_space s)).
-    + destruct (parse_strict (trim_space s)) eqn:P; try discriminate.
+  - intros H. destruct s as [|c r] eqn:E; [discriminate|]. rewrite <- E in *.
+    destruct (has_prefix [78; 59] s || has_prefix [98; 58] s || has_prefix [105; 58] s
+              || has_prefix [100; 58] s || has_prefix [115; 58] s || has_prefix [97; 58] s).
+    + destruct (parse_strict s) eqn:P; try discriminate.
       * inversion H; subst. apply strict_accepts_iff_l. exact P.
-      * destruct (has_prefix [115; 58] (trim_space s)); [|discriminate].
-        destruct (index_byte 34 (trim_space s)); [|discriminate].
-        destruct (index_byte 34 (rev (trim_space s))); [|discriminate].
+      * destruct (has_prefix [115; 58] s); [|discriminate].
+        destruct (index_byte 34 s); [|discriminate].
+        destruct (index_byte 34 (rev s)); [|discriminate].
         destruct (Nat.leb _ _); [discriminate|].
         destruct (has_prefix origami_a _ || has_prefix origami_o _); discriminate.
-    + destruct (has_prefix [115; 58] (trim_space s)); [|discriminate].
-      destruct (index_byte 34 (trim_space s)); [|discriminate].
-      destruct (index_byte 34 (rev (trim_space s))); [|discriminate].
+    + destruct (has_prefix [115; 58] s); [|discriminate].
+      destruct (index_byte 34 s); [|discriminate].
+      destruct (index_byte 34 (rev s)); [|discriminate].
       destruct (Nat.leb _ _); [discriminate|].
       destruct (has_prefix origami_a _ || has_prefix origami_o _); discriminate.
   - intros H. destruct (ser_text_prefix _ _ H) as [Hp Hne].
-    destruct (trim_space s) as [|c r] eqn:E; [congruence|]. rewrite <- E in *.
+    destruct s as [|c r] eqn:E; [congruence|]. rewrite <- E in *.
     rewrite Hp. apply strict_accepts_iff_l in H. rewrite H. reflexivity.
 Qed.
